@@ -62,7 +62,7 @@ def run(ctx):
         rg = sorted(rng.sample(range(len(keys)), 2)) if len(keys) >= 2 else [0, 0]
         if len(keys) >= 3 and rng.random() < 0.6:
             rg[1] = min(len(keys) - 1, rg[0] + rng.randint(1, 2))      # short ranges: start deep inside a leaf, end in the next
-        if source.endswith("-range") and keys and rng.random() < 0.5:
+        if source in ("keys-range", "items-range") and keys and rng.random() < 0.5:
             # empty the part of the leaf the sequence starts in: delete the range's first key and the keys below it
             dels = [["del", keys[i]] for i in range(rg[0], max(-1, rg[0] - rng.randint(2, 5)), -1)]
             steps = [[rng.choice(["len", "index", "bool"])] if False else ["len"]] + dels + [[rng.choice(["len", "bool", "list"])], ["index", rng.randint(-3, 3)]]
